@@ -293,7 +293,7 @@ HARNESSES = [
                     "thorough": [{"nph": nph, "ncls": 3, "k": k, "planar": pl, "refresh": rf} for nph in (1, 2) for k in (0, 1, 3, 4) for pl in ("ok", "none", "sentinel") for rf in (True, False)]}),
     Harness("C03.getdt", getdt, functions=_F, assumptions=_A + ["recorded quantities finite, rates/radii >= 0, constraint parameters > 0, finalTime > current time"],
             bounds={"phases": "nph", "classes": "ncls", "history": "hist"}, opts={"max_paths": 3000, "ob_timeout": 30.0}, budget={"quick": 150.0, "thorough": 1200.0},
-            params={"quick": [{"nph": 1, "ncls": 2, "hist": 1}, {"nph": 1, "ncls": 2, "hist": 2}], "thorough": [{"nph": 2, "ncls": 2, "hist": 2}, {"nph": 1, "ncls": 3, "hist": 3}]}),
+            params={"quick": [{"nph": 1, "ncls": 2, "hist": 1}, {"nph": 1, "ncls": 2, "hist": 2, "_shards": 4}], "thorough": [{"nph": 2, "ncls": 2, "hist": 2}, {"nph": 1, "ncls": 3, "hist": 3}]}),
     Harness("C03.record_grid", record_grid, functions=_F, assumptions=_A,
             params={"quick": [{"ncls": 2, "adaptive": True}, {"ncls": 2, "adaptive": False}], "thorough": [{"ncls": 3, "adaptive": True, "steps": 3}, {"ncls": 3, "adaptive": False, "steps": 3}]}),
     Harness("C03.fromdict", fromdict, functions=_F, assumptions=_A, params={"quick": [{"nph": 2, "nel": 1, "hist": 2}], "thorough": [{"nph": 3, "nel": 2, "hist": 4}]}),
